@@ -59,6 +59,7 @@ var detTemplates = []detTemplate{
 	{"compare edges", []string{"compare", "edges", "-i", "@R", "-c", "@B"}, false, ""},
 	{"compare edges transfer", []string{"compare", "edges", "-i", "@R", "-c", "@B", "-m"}, false, ""},
 	{"compare tips", []string{"compare", "tips", "-i", "@R", "-c", "@B"}, false, ""},
+	{"compare tips list", []string{"compare", "tips", "-i", "@R", "-f", "@L3"}, false, ""},
 	{"matrix", []string{"matrix", "-i", "@T"}, false, ""},
 	{"matrix avg", []string{"matrix", "-i", "@B", "--avg"}, false, ""},
 	{"stats", []string{"stats", "-i", "@T"}, false, ""},
@@ -205,6 +206,8 @@ func detInputsN(dir string, seed int64, ntips int) map[string]string {
 	in["@M"] = w("map.txt", mb.String())
 	in["@L"] = w("tips.txt", lb.String())
 	in["@G"] = w("groups.txt", "t1,n1,n2\nt4,n3\n")
+	// a tip list with names the trees do not have (in another order than any sort)
+	in["@L3"] = w("tips3.txt", "zeta\nt2\nalpha\nt5\nomega\nbeta\nkappa\nt1\ndelta\n")
 	// a map whose new names are other entries' old names (chains and cycles)
 	var cb strings.Builder
 	for i, n := range names {
